@@ -1,7 +1,7 @@
 //! C03: transparency of the translation cache across bank switches. The same history (run a block / jump to an entry
 //! point / write a bank register) is executed through the real `Core::run_code_block` of THIS build (jit feature: warm
 //! cache and a cache emptied before every block; otherwise the interpreter); the runner joins the lines of the two builds.
-//! c03 cfg=T,R,M hist=g3,r,w8448:2,r,... | o=<af,bc,de,hl,sp,ip,bank per r ;...> [c=<same with a cold cache>]
+//! c03 cfg=T,R,M hist=g3,r,w8448:2,r,... | o=<af,bc,de,hl,sp,ip,bank,ip0,bank0,hit,bytes,cartwrite per r ;...> [c=<same with a cold cache>]
 use crate::cache::CodeCache;
 use crate::emulator::Core;
 use crate::mem::{memory_write_byte, MemoryAreas};
@@ -104,7 +104,10 @@ fn exec_hist(cfg: (u8, u8, u8), hist: &[String], cold: bool) -> String {
       // cache observation through the read-only hook, WITHOUT touching the cache's own bank selection: the block that
       // is cached for ip0 after the run was appended by this run (miss) iff it lies beyond the cursor seen so far
       let dyn_ = cfg!(feature = "jit") && crate::mem::can_dynarec(ip0);
+      // did the block write to the cartridge's banking registers (0x2000-0x7fff)?
+      crate::mem::verif_trace::start();
       core.run_code_block();
+      let cw = crate::mem::verif_trace::take().iter().any(|t| t.0 == 1 && t.1 >= 0x2000 && t.1 < 0x8000) as u8;
       let (mut h, mut bt) = (2, 0);
       if dyn_ {
         match core.cache.verif_block(ip0) {
@@ -114,7 +117,7 @@ fn exec_hist(cfg: (u8, u8, u8), hist: &[String], cold: bool) -> String {
       }
       let r = &core.registers;
       let (af, bc, de, hl, sp, ip) = (r.af, r.bc, r.de, r.hl, r.sp, r.ip);
-      out.push(format!("{},{},{},{},{},{},{},{},{},{},{}", af, bc, de, hl, sp, ip, core.memory.cart_state.get_rom_bank(), ip0, bank0, h, bt));
+      out.push(format!("{},{},{},{},{},{},{},{},{},{},{},{}", af, bc, de, hl, sp, ip, core.memory.cart_state.get_rom_bank(), ip0, bank0, h, bt, cw));
       // a halted machine restarts from the first entry; keep the history going
       if core.run_state != crate::emulator::RunState::Run {
         core.run_state = crate::emulator::RunState::Run;
@@ -132,6 +135,23 @@ fn exec_hist(cfg: (u8, u8, u8), hist: &[String], cold: bool) -> String {
 }
 
 pub fn run(_sub: &str, opts: &Opts, w: &mut dyn Write) {
+  if let Some(line) = opts.get("replay-line") {
+    // replay: re-run exactly the configuration and history of the given line
+    if opts.shard().0 != 0 { return; }
+    let get = |k: &str| line.split_whitespace().find_map(|t| t.strip_prefix(k)).unwrap_or("").to_string();
+    let c: Vec<u8> = get("cfg=").split(',').filter_map(|x| x.parse().ok()).collect();
+    if c.len() != 3 { eprintln!("replay line has no cfg="); std::process::exit(2); }
+    let cfg = (c[0], c[1], c[2]);
+    let hist: Vec<String> = get("hist=").split(',').filter(|x| !x.is_empty()).map(String::from).collect();
+    let o = exec_hist(cfg, &hist, false);
+    if cfg!(feature = "jit") {
+      let c = exec_hist(cfg, &hist, true);
+      writeln!(w, "c03 cfg={},{},{} hist={} | o={} c={}", cfg.0, cfg.1, cfg.2, hist.join(","), o, c).unwrap();
+    } else {
+      writeln!(w, "c03 cfg={},{},{} hist={} | o={}", cfg.0, cfg.1, cfg.2, hist.join(","), o).unwrap();
+    }
+    return;
+  }
   let mut rng = Rng::new(opts.seed ^ 0xc03);
   let (shard, nshards) = opts.shard();
   let cfgs: [(u8, u8, u8); 4] = [(0x01, 5, 0), (0x11, 4, 2), (0x03, 1, 3), (0x13, 6, 3)];
